@@ -8,7 +8,7 @@ from impl import extract, to_xml, no_gc
 import pp_common as pp
 
 REQ = ("From Coq Require Import List NArith.\nFrom Delb.Base Require Import PyStr.\n"
-       "From Delb.Tree Require Import ATree Encode.\nFrom Delb.Ws Require Import Reduce Pretty SimplePP.\n")
+       "From Delb.Tree Require Import ATree Encode.\nFrom Delb.Ws Require Import Reduce Pretty SimplePP Qualified.\n")
 
 GRID = [(i, a) for i in pp.INDENTS0 for a in (False, True)]
 
@@ -56,6 +56,15 @@ def decode_run(vals):
     return vals[0] == 1, vals[1] == 1, dec_pairs(vals, 2)
 
 
+def tree_term(node, t):
+    """the Gallina term for the tree the models are run on: the tree itself, or - with namespaces - its qualified view
+    (Ws/Qualified.v) under the prefix table and declarations of the real serializer"""
+    if not pp.uses_namespaces(t):
+        return cnode(t)
+    tbl, decl = pp.ns_view(node)
+    return "(qual_root (pf_of %s) %s %s)" % (pp.ctbl(tbl), pp.cdecl(decl), cnode(t))
+
+
 def check_docs(ctx, xmls, max_sub):
     """xmls: [(kind, xml text)]"""
     items = []      # (kind, xml, index of the sub-tree, tree, real outputs per grid point)
@@ -75,27 +84,28 @@ def check_docs(ctx, xmls, max_sub):
                 picks = [0] + sorted(ctx.rng.sample(range(1, len(nodes)), min(max_sub, len(nodes) - 1)))
             for idx in picks:
                 t = extract(nodes[idx])
-                if not pp.in_domain(t):
+                if not pp.in_domain_ns(t):
                     continue
+                term = tree_term(nodes[idx], t)
                 g = pick_grid(ctx)
                 try:
                     real = [pp.real_serialize(nodes[idx], i, 0, a) for i, a in g]
                 except Exception as e:  # noqa: BLE001
                     ctx.fail("serialize raised %s: %s" % (type(e).__name__, e), {"xml": xml, "subtree": idx}, classify)
                     continue
-                items.append((kind, xml, idx, t, real, g))
+                items.append((kind, xml, idx, t, real, g, term))
             pro = [extract(n) for n in doc.prologue]
             epi = [extract(n) for n in doc.epilogue]
             t = extract(doc.root)
-            if pp.in_domain(t) and (pro or epi or ctx.rng.random() < 0.3):
+            if pp.in_domain_ns(t) and (pro or epi or ctx.rng.random() < 0.3):
                 g = pick_grid(ctx)
                 real = [pp.real_document(doc, i, 0, a) for i, a in g]
-                docitems.append((kind, xml, pro, t, epi, real, g))
-    terms = ["run18 %s %s" % (cgrid(g), cnode(t)) for _, _, _, t, _, g in items]
-    terms += ["run18doc %s %s %s %s" % (cgrid(g), common.clist(cnode(n) for n in p), cnode(t),
-                                        common.clist(cnode(n) for n in e)) for _, _, p, t, e, _, g in docitems]
+                docitems.append((kind, xml, pro, t, epi, real, g, tree_term(doc.root, t)))
+    terms = ["run18 %s %s" % (cgrid(g), term) for _, _, _, _, _, g, term in items]
+    terms += ["run18doc %s %s %s %s" % (cgrid(g), common.clist(cnode(n) for n in p), term,
+                                        common.clist(cnode(n) for n in e)) for _, _, p, _, e, _, g, term in docitems]
     vals = ctx.coq_eval("c18", preamble(), terms, chunk=20)
-    for (kind, xml, idx, t, real, g), v in zip(items, vals):
+    for (kind, xml, idx, t, real, g, _term), v in zip(items, vals):
         case = {"xml": xml, "subtree": idx, "tree": t}
         if v is None:
             ctx.mismatch("pretty model evaluation", "coqc failed on the case file")
@@ -116,7 +126,7 @@ def check_docs(ctx, xmls, max_sub):
                              dict(case, indentation=ind, align=align, impl=real[gi], simple_pp=simple), classify)
         if ds and reduced:
             ctx.sample({"tree": t, "indentation": g[0][0], "align": g[0][1], "output": real[0]}, limit=3)
-    for (kind, xml, p, t, e, real, g), v in zip(docitems, vals[len(items):]):
+    for (kind, xml, p, t, e, real, g, _term), v in zip(docitems, vals[len(items):]):
         case = {"xml": xml, "document": True, "tree": t}
         if v is None:
             ctx.mismatch("pretty_doc model evaluation", "coqc failed on the case file")
@@ -130,11 +140,11 @@ def check_docs(ctx, xmls, max_sub):
                              {"case": case, "indentation": ind, "align": align, "impl": real[gi], "model": model})
     # data_style and reducedness of the document roots decide whether the document-level demand applies
     droots = {}
-    for (kind, xml, idx, t, real, g), v in zip(items, vals):
+    for (kind, xml, idx, t, real, g, _term), v in zip(items, vals):
         if idx == 0 and v is not None:
             ds, red, _ = decode_run(v)
             droots[xml] = ds and red
-    for (kind, xml, p, t, e, real, g), v in zip(docitems, vals[len(items):]):
+    for (kind, xml, p, t, e, real, g, _term), v in zip(docitems, vals[len(items):]):
         if v is None or not droots.get(xml):
             continue
         strs = dec_pairs(v, 0)
@@ -167,6 +177,12 @@ def gen_cases(ctx, n_data, n_mixed):
         xmls.append(("data", xml))
     for _ in range(n_mixed):
         xmls.append(("mixed", to_xml(pp.gen_mixed_tree(ctx.rng, 3))))
+    # namespaced documents (run through the models as their qualified view)
+    for _ in range(n_data // 5):
+        t = pp.gen_ns_decorate(ctx.rng, pp.gen_data_tree(ctx.rng, ctx.rng.choice([1, 2, 3])))
+        xmls.append(("ns-data", to_xml(t)))
+    for _ in range(n_mixed // 5):
+        xmls.append(("ns-mixed", to_xml(pp.gen_ns_decorate(ctx.rng, pp.gen_mixed_tree(ctx.rng, 2)))))
     # deep chains: nodes 9-13 levels below the root, serialized from the root and from sub-trees at every depth
     for d in ([9, 12] if ctx.tier == "quick" else [8, 9, 10, 11, 12, 13]):
         xmls.append(("deep", to_xml(pp.gen_deep_chain(ctx.rng, d))))
@@ -198,7 +214,7 @@ def run(ctx, args):
     return ctx.finish(
         rule="documents: fixed small cases + chains of 9-13 nested elements (root and sub-trees at every depth) + random conventionally laid out (data-style) documents of depth <= 3 with "
              "elements, comments, PIs, 0-3 attributes, xml:space directives, optional prologue/epilogue, + random "
-             "mixed-content documents; parsed with reduce_whitespace; serialized from the root, from sampled sub-trees "
+             "mixed-content documents + the same with elements in 3 and attributes in 2 namespaces (models run on the qualified view: prefixed names, declarations on the root, as read off the real plain serialization); parsed with reduce_whitespace; serialized from the root, from sampled sub-trees "
              "and as a document with indentation in {'', ' ', '  ', '\\t', ' \\t', '\\n', ' \\n', '\\n '} x align_attributes in {F, T}, width 0 (quick tier: 4 of the 16 option sets per tree, drawn at random). "
              "One evaluation = one (tree, options) output compared byte for byte with the model; the property demand "
              "(output = simple_pp) applies to data-style reduced trees with a non-empty indentation. "
